@@ -254,6 +254,21 @@ func (vertex *Vertex) Validate() error {
 	return nil
 }
 
+// ValidateEdge returns an error if the edge is invalid. Vertex and Edge are the
+// same type, so Validate cannot know that the endpoints are required.
+func (edge *Edge) ValidateEdge() error {
+	if err := edge.Validate(); err != nil {
+		return err
+	}
+	if edge.From == "" {
+		return errors.New("'from' cannot be blank")
+	}
+	if edge.To == "" {
+		return errors.New("'to' cannot be blank")
+	}
+	return nil
+}
+
 func NewGraphElement(g *gripql.GraphElement) *GraphElement {
 	o := GraphElement{Graph: g.Graph}
 	if g.Vertex != nil {
